@@ -133,13 +133,25 @@ def small_games(ctx, I, n_cases, budget):
         yv = np.zeros(1, dtype=int)
         v_all = tables.value_of(table, tables.rows_present(exprs, [1] * n_units), null)
         v_none = tables.value_of(table, tables.rows_present(exprs, [0] * n_units), null)
-        for method in ("bruteforce", "montecarlo"):
+        for method in ("bruteforce", "montecarlo", "montecarlo+budget"):
             util = tables.make_table_utility(I, table, null, mean=Fraction(1000))
-            kw = dict(mc_iterations=rng.randint(1, 12), mc_timeout=0, mc_truncation_steps=0, seed=rng.randrange(1000)) if method == "montecarlo" else {}
-            case = dict(method=method, nUnits=n_units, exprs=exprs, table=tables.table_json(table), null=str(null), **kw)
+            kw = dict(mc_iterations=rng.randint(1, 12), mc_timeout=0, mc_truncation_steps=0, seed=rng.randrange(1000)) if method != "bruteforce" else {}
+            clock = None
+            if method == "montecarlo+budget":
+                # untruncated, but the time budget ends the run early (injected clock; expiry possibly before the first permutation has finished):
+                # every completed permutation telescopes, so the identity must hold wherever the run stops
+                from props.mcutil import injected_clock
+                kw["mc_timeout"] = 5
+                expire_after = rng.randint(0, kw["mc_iterations"])
+                clock = [100] + [100 + (6 if i >= expire_after else rng.choice([0, 1, 5])) for i in range(kw["mc_iterations"] + 2)]
+            case = dict(method=method, nUnits=n_units, exprs=exprs, table=tables.table_json(table), null=str(null), clock=clock, **kw)
             try:
-                imp = I["imp"].ShapleyImportance(method=method, utility=util, **kw)
-                scores = list(np.asarray(imp.fit(X, y, provenance=prov).score(Xv, yv), dtype=float))
+                imp = I["imp"].ShapleyImportance(method=method.split("+")[0], utility=util, **kw)
+                if clock is not None:
+                    with injected_clock(I["shapley"], clock):
+                        scores = list(np.asarray(imp.fit(X, y, provenance=prov).score(Xv, yv), dtype=float))
+                else:
+                    scores = list(np.asarray(imp.fit(X, y, provenance=prov).score(Xv, yv), dtype=float))
             except Exception as e:  # noqa
                 ctx.mismatch("score() raised", case, impl=exc_name(e) + repr(e))
                 continue
@@ -164,4 +176,4 @@ def run(ctx):
     default_distance_offset(ctx, I, 4 if q else 30)
     small_games(ctx, I, 40 if q else 400, 800 if q else 3600)
     return ctx.finish("proof", "C06_neighbor(_point), C06_brute, C04_telescope: in exact arithmetic the modelled scores of each method sum to v(all) - v(none) at every size. "
-                      "Floating-point accuracy at scale cannot be a Lean theorem; it is measured here against exact integer right-hand sides on a size ladder.", RULE)
+                      "Floating-point accuracy: C13_round_kernel bounds every neighbor score's rounding error by ((1+2^-53)^(n+m+3)-1)*A_u under the standard model of binary64 arithmetic, at every size; the sum itself is measured here against exact integer right-hand sides on a size ladder.", RULE)
